@@ -318,6 +318,10 @@ func parseContracts(fset *token.FileSet, f *ast.File, pkgPath string) ([]*FuncCo
 				if err != nil {
 					return nil, fmt.Errorf("%s: loop ordinal: %v", fset.Position(cm.Pos()), err)
 				}
+				if n < 1 {
+					// ordinals are 1-based; a clause for loop 0 would match no loop and be silently ignored
+					return nil, fmt.Errorf("%s: loop ordinal %d: loops are numbered from 1", fset.Position(cm.Pos()), n)
+				}
 				k, lab := splitLabel(fs[1])
 				cl.Kind, cl.Label, cl.Text, cl.Loop = k, lab, strings.TrimSpace(fs[2]), n
 				switch k {
